@@ -224,12 +224,25 @@ def h_fastest(l0: int, l1: int, l2: int, l3: int, k: int, w: int) -> bool:
     return t <= best + 1e-9 * best
 
 
-def h_connected(l0: int, l1: int, l2: int, l3: int, k: int, oi: int, di: int, w: bool) -> bool:
+def h_connected(l0: int, l1: int, l2: int, l3: int, k: int, oi: int, di: int) -> bool:
     """
-    w: an earlier query on the same network instance between the SAME two links but from / to other cells of them
     pre: 0 <= k <= 5 and 0 <= oi <= 2 and 0 <= di <= 2
     post: _
     """
+    return _connected(l0, l1, l2, l3, k, oi, di, False)
+
+
+def h_connected_warm(l0: int, l1: int, l2: int, l3: int, k: int, oi: int) -> bool:
+    """
+    the same after an earlier query on the same network instance between the SAME two links but from / to other cells of them
+    (positions: both at the start cells, both in the middle, both at the end cells of their links)
+    pre: 0 <= k <= 5 and 0 <= oi <= 2
+    post: _
+    """
+    return _connected(l0, l1, l2, l3, k, oi, oi, True)
+
+
+def _connected(l0, l1, l2, l3, k, oi, di, w):
     b = _build(l0, l1, l2, l3, k)
     if b is None:
         return True
